@@ -261,6 +261,12 @@ func ruleC17(c *Ctx) {
 		c.Check(okR, ct.Name+".Read/narrow", P.pos(ct.M["Read"].Pos()), "the double read is converted to float32 before the 4-byte store", "Read does not convert the double to float32")
 		c.Check(okW, ct.Name+".Write/widen", P.pos(ct.M["Write"].Pos()), "the float32 is converted to float64 before the 8-byte write", "Write does not widen the float32 to a double")
 	}
+	ruleVarStd(c)
+}
+
+// ruleVarStd: VAR-STD (C17, C02).
+func ruleVarStd(c *Ctx) {
+	P := c.P
 	c.Rule("VAR-STD", "varints are encoded only by the standard library's encoders (shortest form, at most ten bytes)", 3)
 	n := 0
 	for _, fn := range P.ModuleFuncs() {
@@ -291,6 +297,38 @@ func ruleC17(c *Ctx) {
 			c.OK(fnKey(m)+"/std", P.pos(m.Pos()), "exactly binary.AppendVarint(w.buf, v)")
 		} else {
 			c.Unk(fnKey(m)+"/std", P.pos(m.Pos()), "WriteBuf.Varint is not a single call of binary.AppendVarint on its argument: shortest-form encoding cannot be delegated to the standard library (this rule cannot judge a hand-written encoder)")
+		}
+	}
+	// no second encoder: the write buffer grows only through Varint, Byte and Write (and Reset truncates);
+	// a codec that appended varints by any other route would bypass the standard library's encoder
+	if wbT != nil {
+		bufF := uniqueFieldWhere(wbT, func(t types.Type) bool {
+			sl, ok := t.Underlying().(*types.Slice)
+			return ok && isBasicKind(sl.Elem(), types.Byte)
+		})
+		for _, fn := range P.ModuleFuncs() {
+			for _, b := range fn.Blocks {
+				for _, in := range b.Instrs {
+					st, ok := in.(*ssa.Store)
+					if !ok {
+						continue
+					}
+					fa, ok := st.Addr.(*ssa.FieldAddr)
+					if !ok || typeKey(fa.X.Type()) != "*avro.WriteBuf" || fieldName(fa.X.Type(), fa.Field) != bufF {
+						continue
+					}
+					name := fn.Name()
+					isMethod := fn.Signature.Recv() != nil && typeKey(fn.Signature.Recv().Type()) == "*avro.WriteBuf"
+					if _, fresh := fa.X.(*ssa.Alloc); fresh {
+						continue // constructor
+					}
+					switch {
+					case isMethod && (name == "Varint" || name == "Byte" || name == "Write" || name == "Reset"):
+					default:
+						c.Unk(fnKey(fn)+"/other-writer", P.pos(st.Pos()), "the write buffer is appended to outside WriteBuf.Varint/Byte/Write: a second encoder, whose varints are not known to be the standard library's shortest form of the 64-bit value")
+					}
+				}
+			}
 		}
 	}
 }
